@@ -145,7 +145,7 @@ scalar_t stump_wlearner_t::do_fit(const dataset_t& dataset, const indices_t& sam
                           {
                               // update the parameters if a better feature
                               const auto score = cache.score(criterion, missing_rss, missing_cnt);
-                              if (std::isfinite(score) && score < cache.m_score)
+                              if (is_better_score(score, feature, cache.m_score, cache.m_feature))
                               {
                                   cache.m_score           = score;
                                   cache.m_feature         = feature;
